@@ -166,7 +166,7 @@ PROPS["C12"] = {
             "the EBNF) accepts, and every rejection must carry a label inside the source on char boundaries. Lexical negatives: a "
             "bidi/deprecated/control code point inserted at a random position (also inside comments and strings), unterminated "
             "string/comment, stray characters, invalid semver after `@`, empty record/variant/enum/flags/tuple bodies. "
-            "Non-trivial: document with >= 3 statement/declaration kinds; distinct by token text with digits removed. Separators between tokens include block comments generated from pieces that put `/`, `*` and delimiters next to each other (`/*/`, `**/`, nesting), validated by a reference nesting scanner, and their unterminated variants as negatives; forbidden code points are drawn from the whole classes (C0 controls other than tab/LF/CR, DEL, C1 controls U+0080..U+009F, bidirectional overrides and isolates, deprecated code points).",
+            "Non-trivial: document with >= 3 statement/declaration kinds; distinct by token text with digits removed. Separators between tokens include block comments generated from pieces that put `/`, `*` and delimiters next to each other (`/*/`, `**/`, nesting), validated by a reference nesting scanner, and their unterminated variants as negatives; forbidden code points are drawn from the whole classes (C0 controls other than tab/LF/CR, DEL, C1 controls U+0080..U+009F, bidirectional overrides and isolates, deprecated code points). Generated texts may end inside trivia: a `//` comment running to the end of the input without a newline, a block comment, or bare whitespace.",
     "assumptions": ["reference `id` admits upper-case words (WIT acronyms) as the implementation's token rule does",
                     "an argument list may be empty and `...` may stand at any argument position syntactically ('must be last' is an evaluation rule, C04)",
                     "`results ::= type` only: the EBNF's named result list was removed from WIT and is documentation staleness, not a defect",
@@ -458,7 +458,7 @@ PROPS["C16"] = {
     "post": _c16_post,
     "quick_budget_s": 90,
     "thorough_budget_s": 900,
-    "floors": {"any": {"multi-fault:diagnostic": 30, "history-with-removals:ok": 500, "distinct-hash-orders-observed": 2, "labels-compared": 300, "composition:ok": 300,
+    "floors": {"any": {"program:ok": 800, "multi-fault:diagnostic": 30, "history-with-removals:ok": 500, "distinct-hash-orders-observed": 2, "labels-compared": 300, "composition:ok": 300,
                        "document:printed": 300, "document:diagnostic": 300, "fixture:encoded": 100, "fixture:failed": 400}},
     "rule": "Every one of N fresh worker processes (8 quick / 24 thorough; each with its own std RandomState seeds) runs the same "
             "inputs: (a) generated compositions (3-8 instantiations of few packages so that many same-rank nodes exist, many "
@@ -468,7 +468,7 @@ PROPS["C16"] = {
             "parse -> discovery -> file-system resolver -> resolve -> encode (bytes or rendered diagnostic). SHA-256 of every "
             "output is recorded under a label; in-process repetition and an encode of a cloned graph are compared by the worker, "
             "digests across processes by the supervisor. evaluations counts executions over all processes; distinct_nontrivial "
-            "counts distinct labels. The run is inconclusive unless at least 2 distinct HashMap iteration orders were observed. Histories with removals: a definition with 2-6 dependants is removed, 2-7 new definitions reuse the freed node slots, the graph is encoded; replayed three times in-process and compared across the replicated processes. Multi-fault documents: five fixed documents whose resolution fails with several simultaneous faults of one kind (unknown names in `include .. with`, imports outside the target world, exports missing from it, imports with mismatched types), resolved six times per process; the rendered diagnostic must be the same every time and in every process.",
+            "counts distinct labels. The run is inconclusive unless at least 2 distinct HashMap iteration orders were observed. Histories with removals: a definition with 2-6 dependants is removed, 2-7 new definitions reuse the freed node slots, the graph is encoded; replayed three times in-process and compared across the replicated processes. Multi-fault documents: five fixed documents whose resolution fails with several simultaneous faults of one kind (unknown names in `include .. with`, imports outside the target world, exports missing from it, imports with mismatched types), resolved six times per process; the rendered diagnostic must be the same every time and in every process. WAC programs: programs from C04's generator (spreads that fill several arguments, fills, nested `new`s, spread exports) are resolved and encoded three times per process and the digests compared across processes.",
     "assumptions": ["per-process hash seeds cannot be forced, only observed (hash probe)"],
     "technique": "runtime monitor: cross-process and in-process digest comparison of all outputs under differing hash randomisation",
     "level_text": "Determinism is decided by re-executing identical inputs in several fresh processes with different hash seeds, on "
@@ -531,7 +531,7 @@ PROPS["C07"] = {
             "(both directions), transitive on the verdict matrix, unchanged under 3 random orders sharing one memo. Random part: "
             "shuffled sub-universes, and libraries with resources where one provider exports exactly what a consumer imports and "
             "every accepted argument is wired: the encoding must validate. Non-trivial: ordered pair of different items.",
-    "exhaustive_note": "all ordered pairs of the listed item universe are enumerated on every run; the shuffled sub-universes and resource wirings are sampled A further category `type-item` holds TYPE imports whose definition is an instance, component or defined type (`(type (eq $T))`, what a WIT package exports for an interface or world); it goes through the same reference comparison and memo-order law.",
+    "exhaustive_note": "all ordered pairs of the listed item universe are enumerated on every run; the shuffled sub-universes and resource wirings are sampled A further category `type-item` holds TYPE imports whose definition is an instance, component or defined type (`(type (eq $T))`, what a WIT package exports for an interface or world); it goes through the same reference comparison and memo-order law. The component category also holds components that import an instance with a resource and a function over an owned handle, a borrowed handle, a returned handle and lists of either: component-level subtyping maps the resources of the two sides, so the reference verdict decides these pairs too.",
     "assumptions": ["wasmparser 0.247 ComponentEntityType::is_subtype_of is the reference relation",
                     "pairs differing in the table64 flag are not compared with the reference: wasmparser's module-type matching ignores that flag, wac's stricter verdict follows the core spec and is pinned by the repository's test mismatched_table64_is_rejected",
                     "pairs involving resource types are only checked for the algebraic laws and, in the wiring workload, for validity"],
@@ -546,7 +546,7 @@ PROPS["C08"] = {
     "shards": 16,
     "quick_budget_s": 60,
     "thorough_budget_s": 900,
-    "floors": {"any": {"components": 400, "signatures-equal": 2000, "value-types-equal": 500, "resource-identities-checked": 100,
+    "floors": {"any": {"async-functions-checked": 5, "shaped-signatures-equal": 8, "components": 400, "signatures-equal": 2000, "value-types-equal": 500, "resource-identities-checked": 100,
                        "use-provenance-checked": 100, "mutual-subtype-checks": 400,
                        "dep-type:actual-component-satisfies-written-type": 300}},
     "rule": "Each case draws a WIT library (1-4 interfaces with records/variants/enums/flags/lists/options/results/tuples of depth "
@@ -561,7 +561,7 @@ PROPS["C08"] = {
             "to) and original name; two independent decodes must be mutual subtypes; and the component, instantiated alone with "
             "imported dependencies, must satisfy (wasmparser subtype relation, both nested in one validator) the component type "
             "wac wrote for its `unlocked-dep` import. Non-trivial: every generated component; distinct by world text with digits "
-            "removed.",
+            "removed. Shaped WAT components add what WIT-derived components cannot carry: `async` functions as plain imports, inside imported instances (two levels deep) and inside imported component types (imports and exports); their decoded signatures (async flag, parameter names, result) are compared with the text and the component type written for them must be satisfiable.",
     "assumptions": ["wit-component prunes unused types of imported interfaces and merges dependency imports across compatible versions; "
                     "only items present in the binary are compared",
                     "shaped WAT items (nested component/instance/module/value/type imports and exports) are covered by C07's universe, which is decoded by the same code path"],
@@ -601,7 +601,7 @@ PROPS["C11"] = {
     "shards": 16,
     "quick_budget_s": 60,
     "thorough_budget_s": 900,
-    "floors": {"any": {"type-shadow:only-a-type-of-that-name": 300, "type-shadow:really-exported": 200, "merged-import:world-offers-less-than-the-union": 30, "merged-import:world-offers-the-union": 60, "pair:None": 200, "pair:Superset": 50, "pair:ImportRemoved": 50, "pair:ExportAdded": 50,
+    "floors": {"any": {"handle-kind:differs": 300, "handle-kind:same": 300, "type-shadow:only-a-type-of-that-name": 300, "type-shadow:really-exported": 200, "merged-import:world-offers-less-than-the-union": 30, "merged-import:world-offers-the-union": 60, "pair:None": 200, "pair:Superset": 50, "pair:ImportRemoved": 50, "pair:ExportAdded": 50,
                        "pair:ImportTypeChanged": 50, "pair:ExportTypeChanged": 50, "pair:VersionShift": 5,
                        "resolve:accept": 200, "resolve:import-not-in-target": 50, "resolve:missing-export": 50,
                        "resolve:type-mismatch": 100, "reference:subtype": 100, "reference:not-subtype": 100}},
@@ -614,7 +614,7 @@ PROPS["C11"] = {
             "expectation by construction, Document::resolve (Ok / ImportNotInTarget / MissingTargetExport / TargetMismatch), "
             "validate_target on (world package, output of the same document without the clause), and for resource-free libraries "
             "wasmparser's `output <: world` with both nested in one validator. Non-trivial: every pair; distinct by perturbation "
-            "and world shape. Second workload (one case in five): two instantiations implicitly import one plain name with different, mergeable instance types; the world offers the union, or only what one of them needs; both `let` orders; all three checks must accept exactly when the union is offered. Third workload (one case in ten): the world requires a function / instance export and the document really exports it or only defines a type of that name (`type fx = func(..)`, `interface inl {..}`); a type definition never satisfies the world. Three directed witnesses reproduce the recorded resource-identity findings.",
+            "and world shape. Second workload (one case in five): two instantiations implicitly import one plain name with different, mergeable instance types; the world offers the union, or only what one of them needs; both `let` orders; all three checks must accept exactly when the union is offered. Third workload (one case in ten): the world requires a function / instance export and the document really exports it or only defines a type of that name (`type fx = func(..)`, `interface inl {..}`); a type definition never satisfies the world. Three directed witnesses reproduce the recorded resource-identity findings. Fourth workload (one case in ten): world and component agree except, half of the time, in the kind of a resource handle (`borrow<r>` against an owned `r`) in a parameter, inside a list, or next to other parameters, imported or exported.",
     "assumptions": ["the world package is encoded by wit_component::encode exactly as `wac targets` does"],
     "technique": "runtime monitor: four-way differential oracle (construction, resolver, stand-alone checker, reference validator subtyping)",
     "level_text": "Both implementations of conformance and an external reference are run on every generated pair and must agree with each "
